@@ -336,3 +336,103 @@ class AlignGaussian(Contract):
             conds.append(And(deep_eq(ns_.start, ctx.new_off[k]), deep_eq(ns_.stop, ctx.new_off[k] + n), deep_eq(os_.start, ctx.old_off[k]), deep_eq(os_.stop, ctx.old_off[k] + n)))
         cl.append(("each_old_block_moves_to_its_new_offset_with_its_own_length", And(*conds) if ok else False))
         return cl
+
+
+# ==================================================================================================
+# C13: Gaussian plate sum (Gaussian.eager_reduce with ops.add): the square-root factors are stacked along the rank axis
+# ==================================================================================================
+class RecArr:
+    """opaque array that records the layout operations applied to it"""
+
+    def __init__(self, tag, shape):
+        self.tag, self.shape = tag, tuple(shape)
+
+    def reshape(self, shape):
+        return RecArr(("reshape", self.tag, tuple(shape)), tuple(s for s in shape))
+
+
+@register
+class GaussianPlateSum(Contract):
+    """Gaussian.eager_reduce(ops.add, reduced): summing a Gaussian along batch inputs (a plate) stacks the square-root factors:
+    -1/2 sum_i |x S_i - w_i|^2 == -1/2 |x [S_1 .. S_m] - [w_1 .. w_m]|^2.  The data of a Gaussian carries one leading dim per
+    INTEGER input, in input order (Gaussian.__init__), then the rank axis (white_vec) / the dim and rank axes (prec_sqrt).
+    ensures: white_vec is permuted by  kept batch dims (original order) ++ reduced batch dims ++ [rank axis]  and reshaped
+    to  kept sizes ++ (-1,);  prec_sqrt by  kept ++ [dim axis] ++ reduced ++ [rank axis]  and reshaped to kept sizes ++
+    (dim, -1) -- every position is a position AMONG THE INTEGER INPUTS, whatever real inputs are interleaved -- and the result
+    is Gaussian(those arrays, the inputs without the reduced ones, order kept).  numpy's permute / reshape(-1) semantics then
+    give result[kept idx, flat(reduced idx, r)] == self[kept idx, reduced idx, r].
+    structure bound: <= 4 inputs in every int / real interleaving, every non-empty reduced subset of the int inputs."""
+
+    props = ("C13",)
+    file = "funsor/gaussian.py"
+    qualname = "Gaussian.eager_reduce"
+    total = True
+    mutants = (
+        ("batch dims indexed among all inputs (the pinned-tree defect)", "                    dim = len(old_ints)\n", "                    dim = i\n"),
+        ("reduced dims placed before the kept ones", "            perm = kept_perm + reduced_perm + [n]\n            white_vec", "            perm = reduced_perm + kept_perm + [n]\n            white_vec"),
+    )
+
+    def structures(self, tier):
+        for n in (1, 2, 3, 4):
+            for pat in itertools.product("ir", repeat=n):
+                ints = [k for k, c in enumerate(pat) if c == "i"]
+                if not ints or (tier == "quick" and n == 4 and pat.count("i") > 3):
+                    continue
+                for r in range(1, len(ints) + 1):
+                    for red in itertools.combinations(ints, r):
+                        yield "inputs=%s,reduced=%s" % ("".join(pat), list(red)), (pat, red)
+
+    def build(self, p, st):
+        pat, red = st
+        inputs = OrderedDict()
+        sizes = {}
+        for k, c in enumerate(pat):
+            nm = "k%d" % k
+            if c == "i":
+                s = 2 + k
+                sizes[nm] = s
+                inputs[nm] = Dom(s, 1)
+            else:
+                inputs[nm] = Dom("real", 1)
+        int_names = [nm for nm, d in inputs.items() if d.dtype != "real"]
+        batch = tuple(sizes[nm] for nm in int_names)
+        dim = sum(1 for c in pat if c == "r")
+
+        class Self:
+            pass
+
+        s = Self()
+        s.inputs = inputs
+        s.white_vec = RecArr("white_vec", batch + (7,))
+        s.prec_sqrt = RecArr("prec_sqrt", batch + (dim, 7))
+        made = []
+
+        class Ops:
+            logaddexp = "logaddexp"
+            add = "add"
+
+            @staticmethod
+            def permute(a, perm):
+                return RecArr(("permute", a.tag, tuple(perm)), tuple(a.shape[i] for i in perm))
+
+        def Gaussian(white_vec, prec_sqrt, inputs_):
+            made.append((white_vec, prec_sqrt, inputs_))
+            return ("Gaussian", len(made) - 1)
+
+        reduced = frozenset("k%d" % k for k in red)
+        ns = dict(ops=Ops, OrderedDict=OrderedDict, Gaussian=Gaussian, ValueError=ValueError, enumerate=enumerate, len=len, repr=repr, frozenset=frozenset, all=core.sall)
+        return Ctx(args=(s, Ops.add, reduced), namespace=ns, st=st, made=made, int_names=int_names, sizes=sizes, reduced=reduced, inputs=inputs, dim=dim)
+
+    def ensures(self, ctx, result):
+        if result != ("Gaussian", 0) or len(ctx.made) != 1:
+            return [("returns_one_gaussian", False)]
+        w, S, ins = ctx.made[0]
+        ints = ctx.int_names
+        kept = [i for i, nm in enumerate(ints) if nm not in ctx.reduced]
+        redp = [i for i, nm in enumerate(ints) if nm in ctx.reduced]
+        n = len(ints)
+        kept_sizes = tuple(ctx.sizes[ints[i]] for i in kept)
+        exp_w = ("reshape", ("permute", "white_vec", tuple(kept + redp + [n])), kept_sizes + (-1,))
+        exp_S = ("reshape", ("permute", "prec_sqrt", tuple(kept + [n] + redp + [n + 1])), kept_sizes + (ctx.dim, -1))
+        exp_inputs = [k for k in ctx.inputs if k not in ctx.reduced]
+        return [("white_vec_stacked_along_rank", w.tag == exp_w), ("prec_sqrt_stacked_along_rank", S.tag == exp_S), ("inputs_without_the_plate_order_kept", list(ins) == exp_inputs and all(ins[k] is ctx.inputs[k] for k in exp_inputs))]
